@@ -17,7 +17,7 @@ EXTENDS Refs, Json, IOUtils, TLCExt
 Traces == ndJsonDeserialize(IOEnv.TRACE_FILE)
 VARIABLE tid
 E == Traces[tid]
-TInit == tid \in 1..Len(Traces) /\ ns = <<>> /\ host = <<1, 1>> /\ target = <<1, 1>>
+TInit == tid \in 1..Len(Traces) /\ ns = <<>> /\ host = <<1, 1>> /\ target = <<1, 1>> /\ ns0 = <<>> /\ renamed = <<>> /\ uniq = {}
 TSpec == TInit /\ [][UNCHANGED <<vars, tid>>]_<<vars, tid>>
 Used == CASE E.kind = "cell" -> {1, 2} [] E.kind = "rect" -> {1, 2, 3, 4} [] E.kind = "rows" -> {1, 3} [] E.kind = "cols" -> {2, 4}
 HostCoord(i) == IF i \in {1, 3} THEN E.hr ELSE E.hc
